@@ -37,7 +37,9 @@ type sigAdapter struct {
 	markRO func(any)
 	isRO   func(any) bool
 	// build a fan-out over consumers with the given capabilities; cb is invoked for every call
-	build func(caps []bool, cb func(i int, d any) error) (consume func(context.Context, any) error, mutates bool)
+	// mode: 0 plain; 1 the caller's slice is checked for changes and then overwritten with foreign consumers after construction;
+	// 2 additionally a SECOND fan-out is built from the same backing array (the first one is kept and used)
+	build func(caps []bool, cb func(i int, d any) error, mode int) (consume func(context.Context, any) error, mutates bool)
 }
 
 const nSites = 6
@@ -157,15 +159,12 @@ func adapters() []sigAdapter {
 			},
 			markRO: func(d any) { d.(plog.Logs).MarkReadOnly() },
 			isRO:   func(d any) bool { return d.(plog.Logs).IsReadOnly() },
-			build: func(caps []bool, cb func(int, any) error) (func(context.Context, any) error, bool) {
-				var cs []consumer.Logs
-				for i, m := range caps {
-					i := i
+			build: func(caps []bool, cb func(int, any) error, mode int) (func(context.Context, any) error, bool) {
+				f := c06Build(caps, func(i int, m bool) consumer.Logs {
 					c, _ := consumer.NewLogs(func(_ context.Context, ld plog.Logs) error { return cb(i, ld) },
 						consumer.WithCapabilities(consumer.Capabilities{MutatesData: m}))
-					cs = append(cs, c)
-				}
-				f := NewLogs(cs)
+					return c
+				}, NewLogs, mode)
 				return func(ctx context.Context, d any) error { return f.ConsumeLogs(ctx, d.(plog.Logs)) }, f.Capabilities().MutatesData
 			},
 		},
@@ -259,15 +258,12 @@ func adapters() []sigAdapter {
 			},
 			markRO: func(d any) { d.(pmetric.Metrics).MarkReadOnly() },
 			isRO:   func(d any) bool { return d.(pmetric.Metrics).IsReadOnly() },
-			build: func(caps []bool, cb func(int, any) error) (func(context.Context, any) error, bool) {
-				var cs []consumer.Metrics
-				for i, m := range caps {
-					i := i
+			build: func(caps []bool, cb func(int, any) error, mode int) (func(context.Context, any) error, bool) {
+				f := c06Build(caps, func(i int, m bool) consumer.Metrics {
 					c, _ := consumer.NewMetrics(func(_ context.Context, md pmetric.Metrics) error { return cb(i, md) },
 						consumer.WithCapabilities(consumer.Capabilities{MutatesData: m}))
-					cs = append(cs, c)
-				}
-				f := NewMetrics(cs)
+					return c
+				}, NewMetrics, mode)
 				return func(ctx context.Context, d any) error { return f.ConsumeMetrics(ctx, d.(pmetric.Metrics)) }, f.Capabilities().MutatesData
 			},
 		},
@@ -334,15 +330,12 @@ func adapters() []sigAdapter {
 			},
 			markRO: func(d any) { d.(ptrace.Traces).MarkReadOnly() },
 			isRO:   func(d any) bool { return d.(ptrace.Traces).IsReadOnly() },
-			build: func(caps []bool, cb func(int, any) error) (func(context.Context, any) error, bool) {
-				var cs []consumer.Traces
-				for i, m := range caps {
-					i := i
+			build: func(caps []bool, cb func(int, any) error, mode int) (func(context.Context, any) error, bool) {
+				f := c06Build(caps, func(i int, m bool) consumer.Traces {
 					c, _ := consumer.NewTraces(func(_ context.Context, td ptrace.Traces) error { return cb(i, td) },
 						consumer.WithCapabilities(consumer.Capabilities{MutatesData: m}))
-					cs = append(cs, c)
-				}
-				f := NewTraces(cs)
+					return c
+				}, NewTraces, mode)
 				return func(ctx context.Context, d any) error { return f.ConsumeTraces(ctx, d.(ptrace.Traces)) }, f.Capabilities().MutatesData
 			},
 		},
@@ -410,19 +403,51 @@ func adapters() []sigAdapter {
 			},
 			markRO: func(d any) { d.(pprofile.Profiles).MarkReadOnly() },
 			isRO:   func(d any) bool { return d.(pprofile.Profiles).IsReadOnly() },
-			build: func(caps []bool, cb func(int, any) error) (func(context.Context, any) error, bool) {
-				var cs []xconsumer.Profiles
-				for i, m := range caps {
-					i := i
+			build: func(caps []bool, cb func(int, any) error, mode int) (func(context.Context, any) error, bool) {
+				f := c06Build(caps, func(i int, m bool) xconsumer.Profiles {
 					c, _ := xconsumer.NewProfiles(func(_ context.Context, pd pprofile.Profiles) error { return cb(i, pd) },
 						consumer.WithCapabilities(consumer.Capabilities{MutatesData: m}))
-					cs = append(cs, c)
-				}
-				f := NewProfiles(cs)
+					return c
+				}, NewProfiles, mode)
 				return func(ctx context.Context, d any) error { return f.ConsumeProfiles(ctx, d.(pprofile.Profiles)) }, f.Capabilities().MutatesData
 			},
 		},
 	}
+}
+
+// violations found while building a fan-out (printed by runFanCase)
+var c06BuildViol []string
+
+// c06Build builds the fan-out over consumers with the given capabilities from a caller-owned, long-lived slice.
+// The constructor must neither modify that slice nor keep using it: afterwards (mode >= 1) the slice must still hold the consumers
+// that were passed, in order, and is then overwritten with FOREIGN consumers (index -1: must never be invoked); in mode 2 a second
+// fan-out is built from the same backing array, as a caller that re-uses a scratch slice does. The first fan-out is returned.
+func c06Build[T any](caps []bool, mk func(i int, m bool) T, ctor func([]T) T, mode int) T {
+	cs := make([]T, 0, len(caps)+4)
+	for i, m := range caps {
+		cs = append(cs, mk(i, m))
+	}
+	saved := append([]T(nil), cs...)
+	f := ctor(cs)
+	if mode >= 1 {
+		for i := range saved {
+			if any(cs[i]) != any(saved[i]) {
+				c06BuildViol = append(c06BuildViol, fmt.Sprintf("sig=C06/fanout/constructor-modified-callers-slice index=%d consumers=%d", i, len(caps)))
+				break
+			}
+		}
+		for i := range cs {
+			cs[i] = mk(-1, i%2 == 0)
+		}
+	}
+	if mode >= 2 {
+		scratch := cs[:0]
+		for j := 0; j < len(caps)+2; j++ {
+			scratch = append(scratch, mk(-1, j%2 == 1))
+		}
+		_ = ctor(scratch)
+	}
+	return f
 }
 
 func bits(bs []bool) string {
@@ -470,7 +495,15 @@ func runFanCase(out *vOut, ad sigAdapter, caps, fail, syncw []bool, inputRO bool
 		held    []any
 		calls   int
 	)
+	mode := 0
+	if len(rounds) > 1 {
+		mode = rounds[1]
+	}
 	consume, mutates := ad.build(caps, func(i int, d any) error {
+		if i < 0 {
+			out.Linef("viol sig=C06/fanout/foreign-consumer-invoked signal=%s (the fan-out kept using the caller's slice)", ad.name)
+			return nil
+		}
 		calls++
 		held[i] = d
 		p := ptrOf(d)
@@ -503,7 +536,11 @@ func runFanCase(out *vOut, ad sigAdapter, caps, fail, syncw []bool, inputRO bool
 			return errors.New("fail")
 		}
 		return nil
-	})
+	}, mode)
+	for _, v := range c06BuildViol {
+		out.Linef("viol %s signal=%s", v, ad.name)
+	}
+	c06BuildViol = nil
 	nRounds := 1
 	if len(rounds) > 0 {
 		nRounds = rounds[0]
@@ -645,14 +682,21 @@ func TestVerifC06Fanout(t *testing.T) {
 			sites[i] = rnd.IntN(nSites)
 		}
 		for _, ad := range ads {
-			if c%4 == 1 {
-				runFanCase(out, ad, caps, fail, syncw, inputRO, undecl, cancelAt, seed, sites, 2+c%2)
-			} else {
+			switch {
+			case c%4 == 1:
+				// the same fan-out object for 2-3 payloads; every other time built from a slice the caller keeps using
+				runFanCase(out, ad, caps, fail, syncw, inputRO, undecl, cancelAt, seed, sites, 2+c%2, (c/4)%3)
+			case c%4 == 3:
+				runFanCase(out, ad, caps, fail, syncw, inputRO, undecl, cancelAt, seed, sites, 1, 1+(c/4)%2)
+			default:
 				runFanCase(out, ad, caps, fail, syncw, inputRO, undecl, cancelAt, seed, sites)
 			}
 		}
 		if c%4 == 1 {
 			out.Linef("stat reused_fanout 1")
+		}
+		if c%4 == 3 || (c%4 == 1 && (c/4)%3 > 0) {
+			out.Linef("stat callers_slice_reused 1")
 		}
 		out.Linef("stat site %d", sites[0])
 		if mixed[0] && mixed[1] {
@@ -696,7 +740,7 @@ func TestVerifC06Fanout(t *testing.T) {
 						// in the exhaustive scope the first consumer in the slice cancels the context and fails
 						first := append([]bool{}, none...)
 						first[0] = true
-						runFanCase(out, ad, caps, first, all, inputRO, undecl, 0, uint64(c), sites)
+						runFanCase(out, ad, caps, first, all, inputRO, undecl, 0, uint64(c), sites, 1, c%3)
 					}
 					if mask != 0 && mask != 1<<k-1 {
 						out.Linef("nt")
